@@ -293,30 +293,126 @@ fn c16_quantized_parameters_order25() {
     c16_qp_body::<25, 6>();
 }
 
-/// `residual(BS, WARM)` on N arbitrary bytes: never a panic, whatever partition order, coding
-/// method and Rice parameters the bytes denote.
-fn c16_residual_body<const BS: usize, const WARM: usize, const N: usize>() {
+// ================================================================================================
+// C16 (a)+(b): frame header on arbitrary bytes: no panic, and the CRC-8 is enforced
+// ================================================================================================
+
+/// `frame_header(check_crc)` on N arbitrary bytes.  Never a panic; an accepted header starts with
+/// the sync code, consumed 6..=N bytes, denotes a block size in 1..=65536 (`FrameHeader::block_size`
+/// is what `frame` calls next), a sample-rate code other than 0b1111 and non-reserved channel bits;
+/// and, with `check_crc`, its last consumed byte IS the RFC 9639 CRC-8 (bitwise reference
+/// implementation) of all consumed bytes before it: a header whose stored CRC-8 does not match is
+/// never accepted.
+fn c16_frame_header_body<const N: usize>(check_crc: bool) {
     let data: [u8; N] = kani::any();
-    let off: usize = kani::any();
-    kani::assume(off <= 7);
-    let r = residual::<BitErr>(BS, WARM)((&data[..], off));
+    let r = frame_header::<ByteErr>(check_crc)(&data[..]);
     let mut ok = false;
-    if let Ok((_rest, res)) = r {
+    let mut used = 0;
+    if let Ok((rest, h)) = r {
         ok = true;
-        assert!(res.block_size() == BS && res.warmup_length() == WARM);
-        assert!(res.partition_order() <= 15);
+        used = N - rest.len();
+        assert!(6 <= used && used <= N);
+        assert!(data[0] == 0xFF && (data[1] & 0xFE) == 0xF8);
+        if check_crc {
+            assert!(data[used - 1] == spec_crc8(&data[0..used - 1]));
+        }
+        let bs = h.block_size();
+        assert!(1 <= bs && bs <= 65536);
+        assert!(spec_blocksize(data[2] >> 4, (bs - 1) as u32) == Some(bs as u32));
+        assert!(h.sample_rate_spec().tag() == (data[2] & 0x0F) && (data[2] & 0x0F) != 15);
+        assert!(h.channel_assignment().channels() >= 1 && h.channel_assignment().channels() <= 8);
+        assert!((data[3] >> 4) <= 10 && (data[3] & 1) == 0);
+        assert!(h.is_variable_blocking() == ((data[1] & 1) == 1));
+    }
+    kani::cover!(ok && used == 6);
+    kani::cover!(ok && used == N);
+    kani::cover!(ok && (data[2] >> 4) == 6 && data[5] == 255); // 8-bit block size 256
+    kani::cover!(!ok && data[0] == 0xFF && (data[2] & 0x0F) == 15);
+    kani::cover!(!ok);
+}
+
+//@ unit props=C16 tier=quick kind=bounded timeout=900 funcs="parser::frame_header; parser::utf8_code; parser::block_size_code; parser::sample_rate_code; FrameHeader::block_size" bound="8 arbitrary input bytes (headers of 6..=8 bytes can be accepted; longer ones end in Incomplete)" finding=F-C16-parser-panics note="CRC-8 enforced: accepted => last byte == bitwise RFC CRC-8 of the bytes before it"
+#[kani::proof]
+#[kani::unwind(10)]
+fn c16_frame_header_crc8_enforced() {
+    c16_frame_header_body::<8>(true);
+}
+
+//@ unit props=C16 tier=quick kind=bounded timeout=900 funcs="parser::frame_header; parser::utf8_code; parser::block_size_code; parser::sample_rate_code; FrameHeader::block_size" bound="8 arbitrary input bytes, CRC check disabled" finding=F-C16-parser-panics
+#[kani::proof]
+#[kani::unwind(10)]
+fn c16_frame_header_nocrc_no_panic() {
+    c16_frame_header_body::<8>(false);
+}
+
+// ================================================================================================
+// C16 (a): metadata
+// ================================================================================================
+
+/// `stream_info` on 34 arbitrary bytes (the exact STREAMINFO length): never a panic; an accepted
+/// block describes a stream this crate supports (1..=8 channels, a documented sample width, rate
+/// <= 96 kHz) and stores the fields at their RFC 9639 section 8.2 positions.
+//@ unit props=C16,C15 tier=quick kind=complete timeout=900 funcs="parser::stream_info; StreamInfo::new; StreamInfo::set_block_sizes; StreamInfo::set_frame_sizes" note="complete: STREAMINFO is exactly 34 bytes; shorter inputs end in Incomplete (unit c16_stream_info_short)"
+#[kani::proof]
+#[kani::unwind(18)]
+#[kani::stub(std::fmt::format, stub_format)]
+fn c16_stream_info_no_panic() {
+    let data: [u8; 34] = kani::any();
+    let r = stream_info::<ByteErr>(&data[..]);
+    let mut ok = false;
+    if let Ok((rest, info)) = r {
+        ok = true;
+        assert!(rest.len() == 0);
+        assert!(info.min_block_size() == (((data[0] as usize) << 8) | data[1] as usize));
+        assert!(info.max_block_size() == (((data[2] as usize) << 8) | data[3] as usize));
+        assert!(info.channels() == (((data[12] >> 1) & 7) as usize) + 1);
+        assert!(info.bits_per_sample() == ((((data[12] & 1) << 4) | (data[13] >> 4)) as usize) + 1);
+        assert!(info.sample_rate() <= 96_000);
+        let b = info.bits_per_sample();
+        assert!(8 <= b && b <= 25 && (b % 4 == 0 || b % 4 == 1));
+        assert!(info.md5_digest()[0] == data[18] && info.md5_digest()[15] == data[33]);
     }
     kani::cover!(ok);
     kani::cover!(!ok);
 }
 
-//@ unit props=C16 tier=quick kind=bounded timeout=900 funcs="parser::residual; parser::unary_code" stubs="arrayutils::find_max -> contract_find_max (maximum element); arrayutils::wrapping_sum -> contract_wrapping_sum_u32 (sum mod 2^32)" bound="block size 2, warm-up 1, 3 arbitrary input bytes, bit offset 0..=7"
+/// Every proper prefix of a STREAMINFO block is Incomplete/Error, never a panic.
+//@ unit props=C16 tier=quick kind=bounded timeout=900 funcs="parser::stream_info" bound="prefixes of 0, 3, 9, 17, 18 and 33 bytes (one inside each field group)"
 #[kani::proof]
-#[kani::unwind(27)]
-#[kani::stub(crate::arrayutils::find_max, contract_find_max)]
-#[kani::stub(crate::arrayutils::wrapping_sum, contract_wrapping_sum)]
-fn c16_residual_bs2_no_panic() {
-    c16_residual_body::<2, 1, 3>();
+#[kani::unwind(18)]
+#[kani::stub(std::fmt::format, stub_format)]
+fn c16_stream_info_short() {
+    let data: [u8; 33] = kani::any();
+    let lens = [0usize, 3, 9, 17, 18, 33];
+    let mut k = 0;
+    while k < lens.len() {
+        let r = stream_info::<ByteErr>(&data[0..lens[k]]);
+        assert!(r.is_err());
+        k += 1;
+    }
+}
+
+/// `metadata_block` on 4 header bytes + 4 payload bytes, all arbitrary, for block types other than
+/// STREAMINFO (type 0 goes through `stream_info`, units above): never a panic; the invalid type 127
+/// is an error; an accepted block consumed exactly 4 + length bytes.
+//@ unit props=C16 tier=quick kind=bounded timeout=900 funcs="parser::metadata_block; MetadataBlockData::new_unknown" bound="8 arbitrary input bytes, block type != 0 (payload lengths 0..=4 can be accepted)"
+#[kani::proof]
+#[kani::unwind(7)]
+#[kani::stub(std::fmt::format, stub_format)]
+fn c16_metadata_block_no_panic() {
+    let data: [u8; 8] = kani::any();
+    kani::assume(data[0] & 0x7F != 0);
+    let r = metadata_block::<ByteErr>(&data[..]);
+    let mut ok = false;
+    if let Ok((rest, b)) = r {
+        ok = true;
+        let len = ((data[1] as usize) << 16) | ((data[2] as usize) << 8) | data[3] as usize;
+        assert!(len <= 4 && rest.len() == 4 - len);
+        assert!(b.is_last == (data[0] >= 0x80));
+        assert!(b.data.typetag() == (data[0] & 0x7F) && b.data.typetag() != 127);
+    }
+    kani::cover!(ok && data[3] == 4);
+    kani::cover!(!ok && data[0] & 0x7F == 127);
 }
 
 // ---- XP (temporary experiments) ----
